@@ -264,7 +264,7 @@ Definition ll_dom (x : str) : bool := canon_value x && str_eqb (ll_norm x) x.
 Definition stable_pair (s : ser_id) (d : de_id) : bool :=
   match s, d with
   | SStr, DStr | SBool, DBool | SYesNo, DYesNo | SJaNee, DJa
-  | SJoinWs, DSplitWs | SJoinNl, DSplitNl | SJoinNl, DLines => true
+  | SJoinWs, DSplitWs | SJoinNl, DSplitNl | SJoinNl, DSplitNlE | SJoinNl, DLines => true
   | SNum, DNum _ | SInt, DInt _ => true
   | SExt i, DExt j => (i =? j)%N
   | _, _ => false
